@@ -68,6 +68,7 @@ type Thread struct {
 	done   bool
 	daemon bool // blocked-forever is not a deadlock by itself
 	vc     vclock
+	obs    uint64
 }
 
 type transition struct {
@@ -122,6 +123,12 @@ type Config struct {
 	MaxSteps  int           // scheduling decisions per execution (0 = 200000)
 	Horizon   time.Duration // timers later than this never fire (0 = 1h)
 	LogEvents bool
+	// StateHash, if set, switches the state fingerprint from happens-before
+	// hashing to observational hashing: fingerprint = per-thread hashes of every
+	// value the thread has observed through the shims (Obs) combined with
+	// StateHash(), which must cover all shared mutable state of the scenario.
+	// Sound only when threads' local states are functions of their observations.
+	StateHash func() uint64
 }
 
 type Sched struct {
@@ -545,7 +552,7 @@ func (s *Sched) schedule() *Thread {
 				if hasTimerAlt {
 					cp.Costs[n-1] = CostD
 				}
-				cp.FP = s.fp
+				cp.FP = s.fingerprint()
 				cp.AltID = make([]uint64, n)
 				for i, tr := range trs {
 					cp.AltID[i] = tr.id()
@@ -597,7 +604,9 @@ func (s *Sched) apply(tr transition) {
 		s.out.EventLog = append(s.out.EventLog, fmt.Sprintf("%d@%v %s[%d] %s case=%d", s.steps, s.clock, tr.t.Name, tr.t.ID, op.desc, tr.caseIdx))
 	}
 	op.resCase = tr.caseIdx
+	tr.t.obs = mix(tr.t.obs+0x51ED, uint64(tr.caseIdx+3)) // every step advances the thread's local state
 	if tr.partner != nil {
+		tr.partner.obs = mix(tr.partner.obs+0x51ED, uint64(tr.partCase+3))
 		pop := tr.partner.op
 		op.resRdv, pop.resRdv = true, true
 		pop.resCase = tr.partCase
@@ -639,6 +648,31 @@ func (s *Sched) applyEvents(tr transition) {
 	}
 }
 
+func (s *Sched) fingerprint() [2]uint64 {
+	if s.cfg.StateHash == nil {
+		return s.fp
+	}
+	var a uint64
+	for _, t := range s.threads {
+		h := mix(0x3F84D5B5B5470917, uint64(t.ID)+1)
+		h = mix(h, t.obs)
+		if t.done {
+			h = mix(h, 0xD1310BA6)
+		}
+		a += h
+	}
+	return [2]uint64{a, s.cfg.StateHash()}
+}
+
+// Obs mixes a value observed by the running thread into its observational hash.
+func Obs(v uint64) {
+	s := S
+	if s == nil || s.aborting || s.cur == nil {
+		return
+	}
+	s.cur.obs = mix(s.cur.obs+0x9E37, v)
+}
+
 // Quiet makes subsequent choices take the default without being recorded
 // (used for non-branching setup prefixes). Calls nest.
 func Quiet(on bool) {
@@ -668,7 +702,7 @@ func Choose(n int, kind CostKind) int {
 	for i := 1; i < n; i++ {
 		cp.Costs[i] = kind
 	}
-	cp.FP = s.fp
+	cp.FP = s.fingerprint()
 	cp.AltID = make([]uint64, n)
 	for i := range cp.AltID {
 		cp.AltID[i] = mix(0xBE5466CF34E90C6C, uint64(i)) ^ uint64(s.cur.ID+1)<<48
